@@ -2361,6 +2361,7 @@ func TestRcheckRoaring(t *testing.T) {
 	r.phaseOfficial(nOff)
 	lap("phase D")
 	r.phaseSpecials()
+	r.rejectedImports()
 	r.shiftSpecials()
 	lap("specials")
 	r.phaseWide(nWide, stepsWide)
@@ -2395,4 +2396,49 @@ func TestRcheckRoaring(t *testing.T) {
 	for _, f := range res.Failures {
 		t.Logf("FAIL %v %s: %s\n   seq: %s", f.Props, f.Sig, f.What, strings.Join(f.Seq, " ; "))
 	}
+}
+
+// rejectedImports (C06 / C04): an import payload whose LAST container is malformed is
+// rejected by the iterator only after the earlier containers have been visited; the
+// rejection must leave the bitmap exactly as it was (set, counts, op counters).
+func (r *rkRun) rejectedImports() {
+	payloadSets := [][]uint64{
+		{1, 2, 3, 65536 + 7},
+		{5, 70000, 140000},
+		{0, 65535, 65536, 131071, 196608},
+	}
+	for pi, vals := range payloadSets {
+		for _, clear := range []bool{false, true} {
+			src := NewBitmap(vals...)
+			var buf bytes.Buffer
+			if _, err := src.WriteTo(&buf); err != nil {
+				continue
+			}
+			data := buf.Bytes()
+			keyN := int(binary.LittleEndian.Uint32(data[4:8]))
+			if keyN < 2 {
+				continue
+			}
+			// corrupt the offset of the last container
+			off := 8 + keyN*12 + (keyN-1)*4
+			binary.LittleEndian.PutUint32(data[off:], uint32(len(data)+100))
+			start := []uint64{9, 65536 + 7, 131071}
+			dst := NewBitmap(start...)
+			before := dst.Slice()
+			var err error
+			var changed int
+			r.seq = []string{fmt.Sprintf("NewBitmap(%v)", start), fmt.Sprintf("ImportRoaringBits(payload of %v with the offset of its last container pointing past the end, clear=%v)", vals, clear)}
+			if !r.guard([]string{"C06"}, "rejected-import", func() { changed, _, err = dst.ImportRoaringBits(data, clear, false, 0) }) {
+				continue
+			}
+			if err == nil {
+				continue // accepted: nothing to demand here
+			}
+			after := dst.Slice()
+			r.cmp(rkEq(before, after), []string{"C06", "C04"}, "rejected-import-changed-data", func() string {
+				return fmt.Sprintf("payload %d: the import was rejected (%v, changed=%d) but the bitmap went from %v to %v", pi, err, changed, before, after)
+			})
+		}
+	}
+	r.seq = nil
 }
